@@ -402,16 +402,17 @@ pub fn strftime(ts: time::OffsetDateTime, fmt: &str) -> Result<String, DateForma
                 let nanos = ts.nanosecond();
                 let digits = padding.unwrap_or(if fmt_char == 'L' { 3 } else { 9 });
 
-                w!(
-                    output,
-                    "{:0<width$}",
-                    if digits <= 9 {
-                        nanos / 10u32.pow(9 - digits as u32)
-                    } else {
-                        nanos
-                    },
-                    width = digits
-                );
+                // the leading digits of the nine-digit nanosecond field; digits
+                // beyond nanosecond precision are zeros on the right
+                let nine = format!("{nanos:09}");
+                if digits <= 9 {
+                    output.push_str(&nine[..digits]);
+                } else {
+                    output.push_str(&nine);
+                    for _ in 9..digits {
+                        output.push('0');
+                    }
+                }
 
                 continue;
             }
